@@ -8,6 +8,7 @@ Mirrored Go code (tree after the four `fix:` commits recorded in notes/C05.md):
 * `internal/target/remote/dane.go`         `verifyDANE` only through its verdict on the record kind (C13 models the function itself)
 * `internal/target/remote/connect.go`      `connect` (verify → unauthenticated TLS → plaintext), `attemptMX`, `newConn`, `connectionForDomain`
 * `internal/target/remote/remote.go`       `Start` (override ⇒ no policies), `AddRcpt`, `BodyNonAtomic` (quarantine), `Close` (return to pool)
+* `internal/target/queue/queue.go`         `Start` / `deliver`: which content of the source's meta-data object reaches the target (last section)
 * `internal/smtpconn/pool/pool.go`         `Get` (first usable connection of the key, FIFO) / `Return`
 
 * `framework/dns/dnssec.go`                 `CheckCNAMEAD`, `AuthLookupCNAME`, `AuthLookupTLSA` as oracles over the per-MX facts
@@ -74,7 +75,8 @@ structure MX where
   starttls : StartTLS
   cert     : Cert
   stsMatch : Bool   -- `policy.Match(mx)`
-  aAD      : Bool   -- AD bit of the address RRset of the (canonical) host
+  aAD      : Bool   -- AD bit of the address RRset(s) of the (canonical) host: of the A answer, or of the AAAA answer
+                    -- when the host has no A record (`CheckCNAMEAD` asks for A, then for AAAA)
   tlsaAD   : Bool   -- AD bit on the TLSA lookup (canonical name)
   tlsa     : Tlsa
   reqtls   : Bool   -- server implements REQUIRETLS (go-smtp advertises it on TLS sessions only)
@@ -503,5 +505,45 @@ def runConc (cfg : Cfg) (doms : Nat → Domain) (k victim : Nat) :
       let r := deliverMsg cfg seen m emptyPool
       let rr := runConc cfg doms k victim rest (i + 1) (acc.merge r.2)
       (some r.1 :: rr.1, rr.2)
+
+/-! ## messages that reach the target through `target.queue`
+
+`internal/target/queue/queue.go`: `Queue.Start` stores the POINTER to the `MsgMetadata` object of the message source
+(`QueueMetadata.MsgMeta`), `queueDelivery.Body` writes it to disk, `Commit` schedules the first attempt with the
+in-memory object, and `deliver` hands `meta.MsgMeta.DeepCopy()` to `Target.Start`.  The source (msgpipeline, an SMTP
+endpoint) goes on writing to ITS object until the body stage ends: msgpipeline starts target deliveries at the RCPT
+stage and applies the check results (`Quarantine`) at the body stage, `endpoint/smtp` sets `TLSRequireOverride` after
+it has read the header.  The attempt happens after `Commit`, so what the remote target is started with is the content
+of the object when the body stage ended. -/
+
+/-- the fields of `MsgMetadata` that `target.remote` (and `smtpconn.C.Mail`) read -/
+structure Meta where
+  requireTLS : Bool   -- `SMTPOpts.RequireTLS`
+  tlsNo      : Bool   -- `TLSRequireOverride`
+  quarantine : Bool   -- `Quarantine`
+  utf8       : Bool   -- `SMTPOpts.UTF8`
+deriving DecidableEq, Repr
+
+/-- a message as its source hands it to the queue: content of the meta-data object at `Queue.Start` and when the body
+stage ends -/
+structure QMsg where
+  atStart : Meta
+  atBody  : Meta
+  rcpts   : List Nat
+deriving Repr
+
+/-- what `Queue.deliver` starts the target with (a copy taken at the attempt of the object `Start` kept a reference to) -/
+def QMsg.handedOver (m : QMsg) : Meta := m.atBody
+
+/-- the message as the remote target sees it: a quarantined message is quarantined before the first recipient -/
+def QMsg.toMsg (m : QMsg) : Msg :=
+  ⟨m.handedOver.requireTLS, m.handedOver.tlsNo, if m.handedOver.quarantine then 1 else 0, m.rcpts⟩
+
+/-- SMTPUTF8 parameter of the MAIL command on a server that implements the extension (`smtpconn.C.Mail`) -/
+def QMsg.mailUTF8 (m : QMsg) : Bool := m.handedOver.utf8
+
+/-- a history of messages through one queue in front of one remote target (first attempts, one after the other) -/
+def runVia (cfg : Cfg) (doms : Nat → Domain) (ms : List QMsg) (pool : Pool) : List MsgOut :=
+  run cfg doms (ms.map QMsg.toMsg) pool
 
 end MaddyVerif.RemoteSec
